@@ -19,6 +19,7 @@ Decides:
                         State::get: no parser peeks at or removes the neighbour of its own item (who-may-call registry).
  L repetition    whether a repetition goes round again depends only on what the inner parser returned and on State::len(), never on the
                         position of the consumed item or on the item next to it.
+ T context free  the tokenizer never reads back items it produced for other words (the class of `-5` or `-vx` cannot depend on what precedes it).
 Does not decide: invariance of the outcome under all permutations (value-level)."""
 from core import *
 from dataflow import *
